@@ -263,6 +263,7 @@ class Evaluator:
         self.stmt_hooks: dict[int, object] = {}  # id(stmt) -> callback(frame)
         self.substitute: dict[str, FuncInfo] = {}  # fq -> function evaluated in its place (an inline view of it)
         self.notes: list[str] = []  # why something became POISON (diagnostics)
+        self.uncertain_exits = 0  # undetermined branches that may have left a function / loop (what ran afterwards is not certain)
 
     # ------------------------------------------------------------------ helpers
     def _tick(self) -> None:
@@ -560,6 +561,7 @@ class Evaluator:
             raise Unknown("branch on an undetermined condition")
         self._poison_targets(stmts, fr)
         j = self._has_jump(stmts, loop_jumps=not own_loop)
+        self.uncertain_exits += 1  # (counted for every undetermined branch: what it would have done is not known either)
         if j == "function":
             fr.uncertain = True
         elif j == "loop":
